@@ -573,6 +573,23 @@ pub fn oracle(tier: &str, seed: u64) -> (u64, Vec<Finding>) {
                 let got = logmeanexp(&al); tried += 1;
                 if !got.is_finite() { out.push(Finding { class: "logmeanexp:overflow".into(), what: format!("logmeanexp = {:e} for finite inputs (true value {:e})", got, lme), input: inp.clone() }); }
                 else if (got - lme).abs() > tol(lme) { out.push(Finding { class: "logmeanexp:inaccurate".into(), what: format!("logmeanexp = {:e}, reference {:e}", got, lme), input: inp.clone() }); }
+                // the overflow / underflow EDGES of exp: every single exp(x_i) is finite (resp. non-zero) but their plain sum is not:
+                // k values within half a unit below a maximum m with m < 709.78 < m + ln k (and the mirror image near -745)
+                for edge in [1.0f64, -1.0] {
+                    let k = 2 + r.below(if it % 7 == 0 { 3000 } else { 40 }) as usize;
+                    let m = if edge > 0.0 { 709.7 - (k as f64).ln() * r.unit() } else { -745.2 - 3.0 * r.unit() };
+                    let ae: Vec<f64> = (0..k).map(|i| if i == k / 2 { m } else { m - 0.5 * r.unit() }).collect();
+                    let sref = dd_sum(ae.iter().map(|x| (x - m).exp()));
+                    let (lse, lme) = (sref.ln() + m, (sref / k as f64).ln() + m);
+                    let tol = |w: f64| 4.0 * (k as f64 + 10.0) * u * w.abs().max(1.0);
+                    let inp = format!("x={}", json_floats(&ae)); crumb(&inp);
+                    let got = logsumexp(&ae); tried += 1;
+                    if !got.is_finite() { out.push(Finding { class: "logsumexp:overflow".into(), what: format!("logsumexp = {:e} for {} finite inputs near {:e} (true value {:e})", got, k, m, lse), input: inp.clone() }); }
+                    else if (got - lse).abs() > tol(lse) { out.push(Finding { class: "logsumexp:inaccurate".into(), what: format!("logsumexp = {:e}, reference {:e}", got, lse), input: inp.clone() }); }
+                    let got = logmeanexp(&ae); tried += 1;
+                    if !got.is_finite() { out.push(Finding { class: "logmeanexp:overflow".into(), what: format!("logmeanexp = {:e} for {} finite inputs near {:e} (true value {:e})", got, k, m, lme), input: inp.clone() }); }
+                    else if (got - lme).abs() > tol(lme) { out.push(Finding { class: "logmeanexp:inaccurate".into(), what: format!("logmeanexp = {:e}, reference {:e}", got, lme), input: inp.clone() }); }
+                }
                 // infinity norms
                 let sh = shapes_of(n); let (rr, cc) = *r.pick(&sh);
                 let iref = (0..rr).map(|i| dd_sum((0..cc).map(|j| ar[i * cc + j].abs()))).fold(0.0, f64::max);
